@@ -29,7 +29,7 @@ type scriptedConsumer struct {
 }
 
 func newScriptedConsumer() *scriptedConsumer {
-	return &scriptedConsumer{committed: map[int32]int64{}, low: map[int32]int64{}, high: map[int32]int64{}, wmErr: map[int32]bool{}, events: make(chan kafka.Event, 16)}
+	return &scriptedConsumer{committed: map[int32]int64{}, low: map[int32]int64{}, high: map[int32]int64{}, wmErr: map[int32]bool{}, events: make(chan kafka.Event, 1024)}
 }
 
 func (s *scriptedConsumer) Subscribe(string, kafka.RebalanceCb) error { return nil }
